@@ -28,8 +28,8 @@ runs every sequence of <= 2 (quick) / <= 3 (thorough) *user programs* drawn from
     two_conns         c1 = connect(); c2 = connect(); c2 writes; c2.close(); c1.close()   (pools with room for 2)
 
 and finally checks out once more.  Thorough adds one injected driver fault (disconnect-class or
-plain error) at every ``rollback`` / ``commit`` / ``close`` / PRAGMA call that a program's
-*release* makes (reset-on-return, characteristics reset, real close).
+plain error) at every ``rollback`` / ``commit`` / ``close`` call that a program's *release* makes
+(reset-on-return, real close; the characteristics-reset PRAGMA calls are C26's, see run_shard).
 
 Oracle -- evaluated at **every** checkout, on the raw DBAPI connection, before the user touches
 it (unless reset-on-return was explicitly disabled, where the statement makes no claim):
@@ -91,7 +91,7 @@ META = dict(
     "left open, begin() blocks, AUTOCOMMIT / READ UNCOMMITTED execution options, failing statement, garbage-collected "
     "Connection, raw_connection() work, detach, invalidate, two connections) x 6 pool classes x 3 reset_on_return "
     "settings x 2 sqlite3 transaction modes; thorough adds one injected driver error at every rollback / commit / close "
-    "/ PRAGMA call made while a connection is released.  At every checkout the raw DBAPI connection (transaction flag, "
+    "call made while a connection is released.  At every checkout the raw DBAPI connection (transaction flag, "
     "visible rows, isolation attributes) and an independent observer connection (published rows, write-lock "
     "availability) are compared with what the statement allows.",
     level_note="Trusted: the ledger proxy and this driver's table of which markers each program commits / rolls back / "
@@ -492,7 +492,11 @@ def run_shard(shard, tier, rec):
                         if rel is None:
                             continue
                         for c in led.log[rel:end]:
-                            if c.kind in ("rollback", "commit", "close", "execute", "cursor"):
+                            # (the PRAGMA cursor/execute calls of the characteristics reset are not faulted here: an error
+                            # there escapes _ConnectionRecord.checkin and loses the pool slot -- C26's open finding "an error
+                            # raised by the isolation-level reset callback (finalize_callback) during check-in ..."; on
+                            # StaticPool it would show up here as O3)
+                            if c.kind in ("rollback", "commit", "close"):
                                 for kind in ("disc", "err"):
                                     evaluate(rec, env, cfg, progs, (i, c.idx, kind))
     finally:
